@@ -100,3 +100,19 @@ def history_requests(r, n, jumps=True):
         kk, c, s, N = key(r), counter(r), stream(r), rounds(r)
         reqs.append("chacha n=%d key=%s ctr=%d str=%d ops=%s" % (N, ",".join(map(str, kk)), c, s, ",".join(history(r, 40, jumps))))
     return reqs
+
+
+def dist_histories(r, count, mk_op):
+    """ChaCha histories in which a distribution entry point (`mk_op(r)` -> op) is called at every kind of buffer position: after byte fills that
+    leave the read offset at 1..7 mod 8 and close to the end of the 256-byte block, between word draws of both widths, after jumps"""
+    out = []
+    for _ in range(count):
+        kk, c, st, N = key(r), counter(r), stream(r), rounds(r)
+        ops = []
+        if r.chance(3, 4):
+            ops.append("fill:%d" % r.choice([1, 2, 3, 4, 5, 7, 9, 12, 236, 240, 241, 244, 245, 247, 248, 249, 250, 251, 252, 253, 254, 255, r.below(256)]))
+        for _ in range(1 + r.below(40)):
+            k = r.below(10)
+            ops.append(mk_op(r) if k < 6 else "u32" if k < 8 else r.choice(["u64", "f64", "fill:%d" % r.choice([1, 3, 6]), "jump"]))
+        out.append("chacha n=%d key=%s ctr=%d str=%d ops=%s" % (N, ",".join(map(str, kk)), c, st, ",".join(ops)))
+    return out
